@@ -96,7 +96,6 @@ func VxC04_TwoSample() {
 
 // VxC04_Affine: adding a constant to all data or multiplying it by a positive constant leaves T and DoF unchanged.
 //
-//vx:tier 1
 //vx:budget 900
 //vx:jobs 1
 //vx:mode R
@@ -114,8 +113,14 @@ func VxC04_Affine() {
 	}
 	res, err := test(x1, x2, LocationDiffers)
 	vx.Assume(err == nil)
-	a, b := vx.Float("a"), vx.Float("b")
-	vx.Assume(a > 0)
+	// x -> x+b and x -> a*x separately (their composition is the general affine map)
+	a, b := 1.0, 0.0
+	if vx.Choose("op", 0, 1) == 0 {
+		b = vx.Float("b")
+	} else {
+		a = vx.Float("a")
+		vx.Assume(a > 0)
+	}
 	y1 := vxTS{x1.n, a*x1.mean + b, a * a * x1.v}
 	y2 := vxTS{x2.n, a*x2.mean + b, a * a * x2.v}
 	af, err3 := test(y1, y2, LocationDiffers)
